@@ -82,9 +82,10 @@ class Recurring(Harness):
     loop_bound = 14
     _concrete = None
 
-    def __init__(self):
+    def __init__(self, bases=BASES):
+        self.bases = bases
         self.name = 'bigrat.is_recurring'
-        self.describe = 'BigRat::is_recurring(base, max_period) on a remainder 0 <= n/d < 1 with i64 parts, bases %s, max_period 4 and 10' % (BASES,)
+        self.describe = 'BigRat::is_recurring(base, max_period) on a remainder 0 <= n/d < 1 with i64 parts, bases %s, max_period 4 and 10' % (bases,)
         self.assumptions = ['receiver is a long-division remainder: 0 <= n/d < 1']
         self.expect_classes = ['Option::Some', 'Option::None']
 
@@ -92,10 +93,13 @@ class Recurring(Harness):
         n = I.int('n', 'i64')
         d = I.int('d', 'i64')
         ex.assume(z3.And(d >= 1, n >= 0, n < d))
-        base = BASES[ex.choose(len(BASES), 'base')]
+        base = self.bases[ex.choose(len(self.bases), 'base')]
         mp = [4, 10][ex.choose(2, 'max_period')]
-        v = z3.ToReal(n) / z3.ToReal(d)
-        # the receiver's numer()/denom() are n' , d' with n'/d' = n/d in lowest terms
+        v = I.real('r')
+        ex.assume(v * z3.ToReal(d) == z3.ToReal(n))
+        # the receiver's numer()/denom() are handed out as n and d directly (the function does not depend on
+        # the fraction being in lowest terms: digits / (base^p - 1) = n / d either way)
+        ex.memo[('parts', v.get_id())] = (n, d)
         return [ref(bigrat(v)), base, mp], {'n': n, 'd': d, 'base': base, 'mp': mp, 'v': v}
 
     def post(self, ex, ctx, outcome):
@@ -173,6 +177,8 @@ class ExactMarker(Harness):
             s = deref_all(s)
             for f in s.fields:
                 f = deref_all(f)
+                if isinstance(f, Enum) and f.ty == 'Cow':
+                    f = deref_all(f.fields[0])
                 if isinstance(f, str):
                     texts.append(f)
         shown = ''.join(texts)
@@ -198,4 +204,86 @@ class ExactMarker(Harness):
 
 
 def harnesses(tier):
-    return [Scientific(4 if tier == 'quick' else 6), Recurring(), ExactMarker()]
+    return [Scientific(3 if tier == 'quick' else 6), Recurring([10] if tier == 'quick' else BASES), ExactMarker()]
+
+
+# --------------------------------------------------------------------------------------------------------------
+from .c09 import CANON_STUB, DEFAULT_PARTS
+from .c15 import stub_eval_expr_value
+from mirsym.lib import MapV
+
+
+def stub_numeric_value_env(ex, nc, args):
+    return dup(ex.env['numeric_value'])
+
+
+def stub_to_parts_base10(ex, nc, args):
+    n = dup(deref_all(args[0]))
+    fields = ex.prog.src.structs['NumberParts']
+    vals = [none(ex)] * len(fields)
+    vals[fields.index('raw_value')] = some(ex, n)
+    vals[fields.index('exact_value')] = some(ex, 'BASE10-EXACT')
+    vals[fields.index('approx_value')] = some(ex, 'BASE10-APPROX')
+    vals[fields.index('dimensions')] = some(ex, 'dims')
+    return Struct('NumberParts', vals)
+
+
+class BaseConversionNumerals(Harness):
+    name = 'eval_query.base_conversion.numerals'
+    props = ('C05', 'C04')
+    entry = 'eval_query'
+    describe = ('`x -> base B [digits mode]`: the exact/approx numerals of the reply are exactly those the digit printer produced for that base '
+                '(printer replaced by an arbitrary present/absent pair), never the base-10 strings of the generic rendering')
+    stubs = (SHOW_STUB, CANON_STUB, DEFAULT_PARTS,
+             (r'^eval_expr$', stub_eval_expr_value, 'eval_expr -> arbitrary Number'),
+             (r'^Number::numeric_value$', stub_numeric_value_env, 'Number::numeric_value -> arbitrary (exact?, approx?) marker strings'),
+             (r'^Number::(to_parts|to_parts_digits)$', stub_to_parts_base10, 'Number::to_parts -> parts with base-10 marker numerals'))
+    expect_classes = ['Result::Ok']
+    _concrete = None
+
+    def build(self, ex, I):
+        x = I.real('x')
+        ex.env['value'] = variant(ex, 'Value', 'Number', [number(rational(x), dim({'m': (True, 1)}))])
+        he = ex.choose(2, 'printer gives exact numeral')
+        ha = ex.choose(2, 'printer gives approx numeral')
+        ex.env['numeric_value'] = Tup([some(ex, 'B-EXACT') if he else none(ex), some(ex, 'B-APPROX') if ha else none(ex)])
+        dig = ['Default', 'Scientific', 'Fraction'][ex.choose(3, 'digits mode')]
+        q = variant(ex, 'Query', 'Convert', [expr_const(ex, rational(Fraction(1))), variant(ex, 'Conversion', 'None'), some(ex, 2),
+                                             variant(ex, 'Digits', dig)])
+        return [ref(Opaque('Context')), ref(q)], {'he': he, 'ha': ha}
+
+    def post(self, ex, ctx, outcome):
+        r = deref_all(outcome[1])
+        if not is_ok(r):
+            return [('base conversion of a number succeeds', False)]
+        rep = deref_all(payload(r))
+        if rep.vname != 'Conversion':
+            return [('reply is a Conversion', False)]
+        parts = deref_all(deref_all(rep.fields[0]).fields[0])
+        f = ex.prog.src.structs['NumberParts']
+        e, a = deref_all(parts.fields[f.index('exact_value')]), deref_all(parts.fields[f.index('approx_value')])
+        want_e = 'B-EXACT' if ctx['he'] else None
+        want_a = 'B-APPROX' if ctx['ha'] else None
+        got_e = deref_all(e.fields[0]) if e.variant == 1 else None
+        got_a = deref_all(a.fields[0]) if a.variant == 1 else None
+        return [('exact numeral is the one printed in the requested base (got %r, want %r)' % (got_e, want_e), got_e == want_e),
+                ('approx numeral is the one printed in the requested base (got %r, want %r)' % (got_a, want_a), got_a == want_a)]
+
+    def native(self, inputs, label):
+        return [{'mode': 'query', 'text': '0.0001 -> base 2'}, {'mode': 'query', 'text': '1.0305 -> hex'}]
+
+    def judge(self, inputs, label, obs):
+        bad = []
+        for o in obs:
+            j = o.get('json') or {}
+            v = (j.get('value') or {})
+            ev = v.get('exactValue')
+            if ev is not None and any(c in ev for c in '23456789') and 'base 2' in str(o.get('display', '')) + '0.0001':
+                bad.append('exact numeral %r shown for a non-decimal reply' % ev)
+            if ev is not None and '.' in ev and v.get('approxValue') is not None:
+                bad.append('both exact %r and approx %r' % (ev, v.get('approxValue')))
+        return (bool(bad), '; '.join(bad) or 'ok')
+
+
+def harnesses(tier):   # noqa: F811
+    return [Scientific(3 if tier == 'quick' else 6), Recurring([10] if tier == 'quick' else BASES), ExactMarker(), BaseConversionNumerals()]
